@@ -29,6 +29,7 @@ Inductive c09case :=
        (tr : option (bool * targs * res (hdr * bytes)))
        (loads : option (option N * bytes * res pv))
        (expect : res (hdr * pv))
+       (wire : option hdr)   (* the JSON object in the token's first segment, parsed by the harness itself *)
 (* calendar.timegm(t.utctimetuple()) as observed through convert_claims({"exp": t}) *)
 | CNd (t : dtime) (expect : res Z).
 
@@ -97,6 +98,17 @@ Definition run_enc h cl a e d tr : enc_out :=
 Definition run_dec tok a d tr l : res (hdr * pv) :=
   jwt_decode (pt_loads l) (pt_tdec false tok tr) (pt_tdec true tok tr) tok a d.
 
+(* contract of the transport used by c09_decode_header_is_wire_header, checked on the record:
+   the header a transport hands back for an accepted token is the protected header that is
+   in the token (nothing added on the verifying / decrypting side, e.g. no kid of a key picked
+   from a key set) *)
+Definition wire_contract (tr : option (bool * targs * res (hdr * bytes))) (wire : option hdr) : bool :=
+  match tr, wire with
+  | Some (_, _, Ok (h, _)), Some w => hdr_eqb h w
+  | Some (_, _, Ok _), None => false
+  | _, _ => true
+  end.
+
 Definition c09_check (c : c09case) : bool :=
   match c with
   | CEnc h cl a e d tr ex ha ca =>
@@ -105,7 +117,7 @@ Definition c09_check (c : c09case) : bool :=
   | CConv cl e d ex ca =>
       let '(c', r) := convert_claims_g (pt_dumps d e) cl in
       res_eqb beqb r ex && claims_eqb c' ca
-  | CDec tok a d tr l ex => res_eqb tok_eqb (run_dec tok a d tr l) ex
+  | CDec tok a d tr l ex w => res_eqb tok_eqb (run_dec tok a d tr l) ex && wire_contract tr w
   | CNd t e => res_eqb Z.eqb (numericdate t) e
   end.
 
@@ -121,6 +133,6 @@ Definition c09_show (c : c09case) : c09out :=
       let o := run_enc h cl a e d tr in
       OEnc (eo_result o) (eo_header o) (eo_work o) (eo_claims o)
   | CConv cl e d _ _ => let '(c', r) := convert_claims_g (pt_dumps d e) cl in OConv r c'
-  | CDec tok a d tr l _ => ODec (run_dec tok a d tr l)
+  | CDec tok a d tr l _ _ => ODec (run_dec tok a d tr l)
   | CNd t _ => ONd (numericdate t)
   end.
